@@ -7,7 +7,7 @@ use crate::common::m3::*;
 use crate::common::par;
 use crate::common::robots::*;
 use crate::common::stack::*;
-use rs_opw_kinematics::kinematic_traits::Joints;
+use rs_opw_kinematics::kinematic_traits::{Joints, CONSTRAINT_CENTERED};
 use rs_opw_kinematics::parameters::opw_kinematics::Parameters;
 use serde_json::{json, Value};
 use std::f64::consts::PI;
@@ -127,11 +127,13 @@ pub struct ContCase {
     pub q: Joints, // internal t5 == 0 exactly
     pub d4: f64,
     pub d6: f64,
+    /// previous = CONSTRAINT_CENTERED on a robot whose constraint centres are the perturbed vector
+    pub centred: bool,
 }
 
 impl ContCase {
     fn json(&self) -> Value {
-        json!({"kind": "continuity", "params": params_json(&self.params), "q": nums(&self.q), "d4": self.d4, "d6": self.d6})
+        json!({"kind": "continuity", "params": params_json(&self.params), "q": nums(&self.q), "d4": self.d4, "d6": self.d6, "centred": self.centred})
     }
 }
 
@@ -144,8 +146,6 @@ pub fn eval_cont(c: &ContCase) -> Result<(Vec<(String, String)>, String), &'stat
         return Err("other branch singular");
     }
     let mut fails = Vec::new();
-    let stack = StackDesc::bare(*p);
-    let k = stack.build();
     let pose = to_na(&fkref::fk(p, &c.q));
     let mut prev = c.q;
     prev[3] += c.d4;
@@ -153,13 +153,22 @@ pub fn eval_cont(c: &ContCase) -> Result<(Vec<(String, String)>, String), &'stat
     if prev[3].abs() > 2.0 * PI || prev[5].abs() > 2.0 * PI {
         return Err("previous outside documented range");
     }
-    let tag = conv_tag(p);
-    let sols = match call(k.as_ref(), Entry::Continuing, &pose, &prev, 0.0) {
+    // centred variant: the "previous" of the sentinel is the vector of constraint centres (= prev here);
+    // limits are +-2.5 rad windows around it, so every answer within reach of the redistribution is admitted
+    let stack = if c.centred {
+        StackDesc::bare(*p).limited(Limits { from: prev.map(|x| x - 2.5), to: prev.map(|x| x + 2.5), weight: 1.0 })
+    } else {
+        StackDesc::bare(*p)
+    };
+    let k = stack.build();
+    let tag = format!("{}{}", conv_tag(p), if c.centred { "/centred" } else { "" });
+    let given = if c.centred { CONSTRAINT_CENTERED } else { prev };
+    let sols = match call(k.as_ref(), Entry::Continuing, &pose, &given, 0.0) {
         Ok(s) => s,
         Err(m) => return Ok((vec![(format!("C05/continuity/panic/{tag}"), m)], "panic".into())),
     };
     let (s4, s6) = (p.sign_corrections[3] as f64, p.sign_corrections[5] as f64);
-    if c.d4 == 0.0 && c.d6 == 0.0 {
+    if c.d4 == 0.0 && c.d6 == 0.0 && !c.centred {
         let ok = sols.first().map_or(false, |f| (0..6).all(|i| (f[i] - c.q[i]).abs() <= 2e-6));
         if !ok {
             fails.push((
@@ -265,7 +274,7 @@ pub fn run(ctx: &Ctx) -> Report {
         [vec![0.4, -2.4], vec![-0.9, 0.5], vec![-1.9, 0.8], vec![0.0, 1.1, -2.0], vec![0.0, 2.5]]
     };
     let perturb: Vec<(f64, f64)> = vec![(0.0, 0.0), (0.3, -0.3), (-1.0, 1.0), (0.3, 0.0), (0.0, -1.0), (0.3, 0.3), (1.0, -0.3)];
-    let csizes: Vec<usize> = std::iter::once(crobots.len()).chain(ax.iter().map(|a| a.len())).chain(std::iter::once(perturb.len())).collect();
+    let csizes: Vec<usize> = std::iter::once(crobots.len()).chain(ax.iter().map(|a| a.len())).chain(std::iter::once(2 * perturb.len())).collect();
     let cn = par::product(&csizes);
     let crep = par::run(cn, |idx, r| {
         let mut ix = [0usize; 7];
@@ -273,8 +282,8 @@ pub fn run(ctx: &Ctx) -> Report {
         let p = &crobots[ix[0]];
         let th = [ax[0][ix[1]], ax[1][ix[2]], ax[2][ix[3]], ax[3][ix[4]], 0.0, ax[4][ix[5]]];
         let q = user_joints(p, &th);
-        let (d4, d6) = perturb[ix[6]];
-        let c = ContCase { params: *p, q, d4, d6 };
+        let (d4, d6) = perturb[ix[6] % perturb.len()];
+        let c = ContCase { params: *p, q, d4, d6, centred: ix[6] >= perturb.len() };
         match eval_cont(&c) {
             Err(_) => r.skipped_precondition += 1,
             Ok((fails, sig)) => {
@@ -302,7 +311,7 @@ pub fn run(ctx: &Ctx) -> Report {
     rep.traces_validated = rep.transitions;
     rep.rule = "detection: robots (signs x offsets incl. J5 offset) x internal t5 = k*pi + d, k in -3..3, d in {0, +-0.5, +-0.9, +-1.1, +-2 thr, +-1 deg, ..} x \
                 other joints x {bare, tool, base, frame}; oracle: angle between FK_ref axes 4 and 6 folded to [0,pi/2] < 0.01 deg <=> Some(A); band edge +-5% skipped. \
-                continuity: robots R x lattice with internal t5 = 0 exactly x previous = solution with J4/J6 perturbed; preconditions (arm sensitivity to the \
+                continuity: robots R x lattice with internal t5 = 0 exactly x previous = solution with J4/J6 perturbed, given explicitly or as CONSTRAINT_CENTERED on a robot whose constraint centres are that vector; preconditions (arm sensitivity to the \
                 0.125 um shifts < 0.4 urad, no other arm branch singular) computed by the oracle; expect previous first (2e-6) and a singular answer whose \
                 J4 and J6 moved together".into();
     rep.set("axes", json!({"detection_robots": robots.len(), "k": 7, "d": ds.len(), "other_joint_vectors": others.len(), "stacks": 4, "j5_lattice_frames": ["model angle", "raw joint value"],
@@ -325,6 +334,7 @@ pub fn replay(case: &Value) -> Vec<String> {
         q: as_arr6(&case["q"]),
         d4: as_num(&case["d4"]),
         d6: as_num(&case["d6"]),
+        centred: case["centred"].as_bool().unwrap_or(false),
     };
     match eval_cont(&c) {
         Ok((f, _)) => f.into_iter().map(|(k, d)| format!("{k}: {d}")).collect(),
